@@ -305,7 +305,7 @@ pub fn run_files(args: &[String]) {
     let mut jobs: Vec<(usize, String, u64)> = Vec::new();
     let kinds = ["none", "value:commitment", "value:oods", "value:leaf", "value:auth", "value:fri_leaf", "value:memory", "swap:leaves", "swap:auth", "remove:leaf", "remove:auth", "remove:commitment",
                  "remove:nonce", "dup:leaf", "dup:commitment", "segment:unknown", "segment:remove", "hex:memory", "hex:memory:+", "hex:memory:0x_", "hex:memory:0xg", "hex:memory:empty", "hex:memory:0x", "hex:annotation", "hex:in-list", "pow_bits:255", "pow_bits:256", "pow_bits:300",
-                 "nonce:0", "nonce:max64", "nonce:2^64", "steps:empty", "steps:huge", "n_steps:odd", "n_steps:2^31", "last_bound:100", "page:1", "page:top32", "page:wrap32", "page:first", "page:last-listed-first", "memory:rotate", "memory:swap01", "rc", "nvf", "dyn:value", "dyn:remove", "dyn:cpu_step=8", "dyn:cpu_step=3", "dyn:cpu_step=0", "dyn:cols_first+1", "dyn:cols_second+1", "dup:fri_commit", "steps:drop-last", "steps:append", "layout:unknown"];
+                 "nonce:0", "nonce:max64", "nonce:2^64", "steps:empty", "steps:huge", "steps:32+cosets40", "steps:31+cosets40", "n_steps:odd", "n_steps:2^31", "last_bound:100", "page:1", "page:top32", "page:wrap32", "page:first", "page:last-listed-first", "memory:rotate", "memory:swap01", "rc", "nvf", "dyn:value", "dyn:remove", "dyn:cpu_step=8", "dyn:cpu_step=3", "dyn:cpu_step=0", "dyn:cols_first+1", "dyn:cols_second+1", "dup:fri_commit", "steps:drop-last", "steps:append", "layout:unknown"];
     for (fi, _) in files.iter().enumerate() { for k in kinds { for r in 0..(if k == "none" { 1 } else { per }) { jobs.push((fi, k.to_string(), r)); } } }
     let res = par_map(&jobs, n_threads(), |_, (fi, kind, r)| {
         let f = &files[*fi];
@@ -350,6 +350,9 @@ pub fn run_files(args: &[String]) {
                 let val = match k { "nonce:0" => "0x0", "nonce:max64" => "0xffffffffffffffff", _ => "0x10000000000000000" };
                 let l = &ann[i]; let j = l.rfind("Data(").unwrap(); set_ann(&mut v, i, format!("{}Data({})", &l[..j], val)); } }
             "steps:empty" => v["proof_parameters"]["stark"]["fri"]["fri_step_list"] = json!([]),
+            // a step whose column count 2^step no longer fits 32 bits, inside a domain large enough for the layer sizes to stay positive
+            "steps:32+cosets40" => { v["proof_parameters"]["stark"]["log_n_cosets"] = json!(40); v["proof_parameters"]["stark"]["fri"]["fri_step_list"][1] = json!(32); }
+            "steps:31+cosets40" => { v["proof_parameters"]["stark"]["log_n_cosets"] = json!(40); v["proof_parameters"]["stark"]["fri"]["fri_step_list"][1] = json!(31); }
             "steps:huge" => v["proof_parameters"]["stark"]["fri"]["fri_step_list"] = json!([0, 40]),
             "n_steps:odd" => v["public_input"]["n_steps"] = json!(12345),
             "n_steps:2^31" => v["public_input"]["n_steps"] = json!(1u64 << 31),
